@@ -12,6 +12,9 @@ for _p in sorted(glob.glob(os.path.join(_here, "engine_*.py"))):
     _name = os.path.basename(_p)[:-3]
     if _name == "engine_base":
         continue
-    _m = importlib.import_module(_name)
-    ENGINES[_m.ENGINE.name] = _m.ENGINE
-    PROPS.update(_m.PROPS)
+    try:
+        _m = importlib.import_module(_name)
+        ENGINES[_m.ENGINE.name] = _m.ENGINE
+        PROPS.update(_m.PROPS)
+    except Exception as _e:  # a broken plug-in must not take the other engines down
+        print(f"engines: cannot load {_name}: {_e}", file=sys.stderr)
